@@ -4,6 +4,9 @@ go 1.22
 
 require github.com/goose-lang/goose v0.0.0
 
-require github.com/goose-lang/primitive v0.1.0 // indirect
+require (
+	github.com/goose-lang/primitive v0.1.0 // indirect
+	golang.org/x/sys v0.22.0 // indirect
+)
 
 replace github.com/goose-lang/goose => /repo
